@@ -104,6 +104,15 @@ func probe(dir, outPath string) {
 	w.lookup(context.Background())
 	_, c, _ := w.observe()
 	res["lookup_deletes_backup"] = c.K == "none"
+	// (c) corrupt block and a valid backup: does a lookup write the block back?
+	must(w.setBlock(b))
+	must(w.setCow("full", w.images[2]))
+	r, v, e = w.lookup(context.Background())
+	bo, _, _ := w.observe()
+	res["lookup_restores_block"] = bo.X == "none" && bo.Q[3] == 2
+	res["backup_lookup"] = map[string]any{"res": r, "val": v, "err": e}
+	must(w.setBlock(w.images[1]))
+	must(w.setCow("none", nil))
 	// the real code created the backup where the driver looks for it?
 	a := &actor{name: "w", w: w, gated: true, cmdCh: make(chan cmd), atCh: make(chan arrival, 1)}
 	seen := ""
